@@ -121,6 +121,7 @@ def one_world(args):
 
 def run_worlds(jobs):
     import os
+    vlib.build_srv(); vlib.build_cli()        # build once here; the workers then find the cached binaries
     with ProcessPoolExecutor(min(16, os.cpu_count() or 4)) as ex:
         return list(ex.map(one_world, jobs))
 
